@@ -107,12 +107,12 @@ def make_object(el, objs, pid, i):
 def build_part(spec):
     """Build a Part from a specification.  Returns (part, [object per element, in spec order])."""
     import partitura.score as S
-    p = S.Part(spec["id"], quarter_duration=spec["divs"])
+    p = S.Part(spec["id"], part_name=spec.get("name"), quarter_duration=spec["divs"])
     objs = [None] * len(spec["elems"])
     order = sorted(range(len(spec["elems"])), key=lambda i: 1 if spec["elems"][i]["cls"] in ("Slur", "Tuplet", "Fermata") else 0)
     for i in order:
         el = spec["elems"][i]
-        o = make_object(el, objs, spec["id"], i)
+        o = make_object(el, objs, spec.get("note_prefix", spec["id"]), i)
         objs[i] = o
         p.add(o, el["s"], el["e"])
     for i, el in enumerate(spec["elems"]):
@@ -225,12 +225,17 @@ def staff_pool(cfg):
     return {"none": [None], "one": [1], "two": [1, 2], "mixed": [None, 1, 2], "high": [2], "gap": [1, 3]}[cfg]
 
 
-def gen_part(rng, pi, d, layout, layout_flags, mode, many_voices=False):
-    """One part: structural elements as the flags say, notes in this part's own divisions."""
-    total = layout["total"] * d
+def gen_part(rng, pi, d, layout, layout_flags, mode, many_voices=False, n_measures=None, content="any"):
+    """One part: structural elements as the flags say, notes in this part's own divisions.
+    n_measures: the part stops after that many measures of the layout (parts of different lengths);
+    content: 'any' | 'no_notes' (rests and other elements only) | 'empty' (no element at all)."""
+    measures = layout["measures"][:n_measures] if n_measures else layout["measures"]
+    total = measures[-1][1] * d
     els = []
+    if content == "empty":
+        return {"id": "P%d" % pi, "divs": d, "elems": els}
     if "measures" in layout_flags:
-        for j, (s, e) in enumerate(layout["measures"]):
+        for j, (s, e) in enumerate(measures):
             els.append({"cls": "Measure", "s": s * d, "e": e * d, "number": j + 1})
     if "ts" in layout_flags:
         els.append({"cls": "TimeSignature", "s": 0, "e": None, "beats": layout["ts"][0], "beat_type": layout["ts"][1]})
@@ -257,6 +262,8 @@ def gen_part(rng, pi, d, layout, layout_flags, mode, many_voices=False):
     n_notes = rng.choice([0, 1, 2, 3, 4, 5, 6]) if rng.random() < 0.9 else 0
     if many_voices:
         n_notes = max(n_notes, len(voices))
+    if content == "no_notes":
+        n_notes = 0
     for k in range(n_notes):
         s, e = span()
         v = voices[k % len(voices)] if (many_voices or rng.random() < 0.5) else rng.choice(voices)
@@ -367,9 +374,42 @@ def gen_case(rng, mode=None, force_many_voices=False):
             flags = ["measures", "ts", "ks"] if r < 0.85 else (["measures"] if r < 0.93 else [])
         else:
             flags = ["measures", "ts", "ks"] if r < 0.7 else (["measures", "ts"] if r < 0.8 else (["ts"] if r < 0.85 else []))
-        parts.append(gen_part(rng, pi, d, layout, flags, mode, many_voices=(pi == many_at)))
+        nmeas = None
+        if len(layout["measures"]) > 1 and rng.random() < 0.25:
+            nmeas = rng.randint(1, len(layout["measures"]) - 1)        # a shorter part
+        content = "any"
+        if pi == 0 and rng.random() < 0.12:
+            content = rng.choice(["no_notes", "no_notes", "empty"])     # first part without notes / empty
+        elif pi > 0 and rng.random() < 0.04:
+            content = "empty"
+        parts.append(gen_part(rng, pi, d, layout, flags, mode, many_voices=(pi == many_at), n_measures=nmeas, content=content))
+    assign_identities(rng, parts)
     return {"mode": mode, "container": gen_container(rng, len(parts)), "parts": parts,
             "pickup": layout["pickup"]}
+
+
+def assign_identities(rng, parts):
+    """Attributes the property does not constrain: part ids (all distinct / all equal / some equal, also
+    equal to the first part's), part names, note ids colliding across parts."""
+    n = len(parts)
+    scheme = rng.choice(["distinct", "distinct", "all_equal", "all_equal", "some_equal", "equal_to_first", "last_two_equal"])
+    ids = ["P%d" % i for i in range(n)]
+    if scheme == "all_equal":
+        ids = [rng.choice(["P1", "P0", "Piano"])] * n
+    elif scheme == "some_equal" and n >= 2:
+        a, b = rng.sample(range(n), 2)
+        ids[b] = ids[a]
+    elif scheme == "equal_to_first" and n >= 2:
+        for k in rng.sample(range(1, n), rng.randint(1, n - 1)):
+            ids[k] = ids[0]
+    elif scheme == "last_two_equal" and n >= 2:
+        ids[-1] = ids[-2]
+    names = rng.choice([[None] * n, ["Violin"] * n, ["name%d" % i for i in range(n)], [rng.choice([None, "", "Piano"]) for _ in range(n)]])
+    prefix_scheme = rng.choice(["by_part", "by_part", "shared", "by_id"])
+    for i, p in enumerate(parts):
+        p["id"] = ids[i]
+        p["name"] = names[i]
+        p["note_prefix"] = {"by_part": "q%d" % i, "shared": "n", "by_id": ids[i]}[prefix_scheme]
 
 
 def small_scope_cases():
@@ -388,7 +428,10 @@ def small_scope_cases():
                             for pi, (d, v, s) in enumerate([(d0, v0, s0), (d1, v1, s1)]):
                                 els = [{"cls": "Note", "s": 0, "e": d, "voice": v[0], "staff": s[0], "pitch": 60 + pi},
                                        {"cls": "Note", "s": d, "e": 2 * d, "voice": v[1], "staff": s[1], "pitch": 64 + pi}]
-                                parts.append({"id": "P%d" % pi, "divs": d, "elems": els})
+                                # every other case gives both inputs the same id (and the same note ids)
+                                same = (len(out) % 2 == 1)
+                                parts.append({"id": "P1" if same else "P%d" % pi, "divs": d, "elems": els,
+                                              "note_prefix": "n" if same else "q%d" % pi})
                             out.append({"mode": mode, "container": {"type": "list", "tree": [0, 1]}, "parts": parts, "pickup": False})
     return out
 
@@ -422,6 +465,25 @@ def corpus_cases():
         out.append({"mode": mode, "container": {"type": "group", "tree": [[0, 1]]}, "pickup": False,
                     "parts": [P(0, 4, M(4) + [N(0, 4, 1, 1, 60, tie_next=4), N(4, 8, 2, 1, 60), {"cls": "GraceNote", "s": 8, "e": 8, "voice": 1, "staff": 1, "pitch": 70}]),
                               P(1, 4, M(4) + [N(0, 4, 1, 1, 64), N(4, 6, 1, 1, 65)])]})
+        # all inputs carry the same id (parts of different single-part files are all "P1"), divisions differ
+        same = [P(0, 2, M(2) + [N(0, 2, 1, 1), R(6, 8, 1, 1), {"cls": "Slur", "s": 0, "e": 2, "from": 3, "to": 3}]),
+                P(1, 3, M(3) + [N(3, 6, 1, 1, 64), {"cls": "ConstantLoudnessDirection", "s": 3, "e": 9, "staff": 1}]),
+                P(2, 4, M(4) + [N(1, 5, 1, 1, 67)])]
+        for sp in same:
+            sp["id"] = "P1"
+        for cont in ({"type": "list", "tree": [0, 1, 2]}, {"type": "score", "tree": [0, [1, 2]]}, {"type": "tuple", "tree": [0, 1]}):
+            out.append({"mode": mode, "container": cont, "pickup": False, "parts": json.loads(json.dumps(same))})
+        # first and last input share the id, the middle one differs
+        fl = json.loads(json.dumps(same))
+        fl[1]["id"] = "P2"
+        out.append({"mode": mode, "container": {"type": "group", "tree": [[0, 1, 2]]}, "pickup": False, "parts": fl})
+        # an empty first part; a first part without notes and with other divisions than the lcm, shorter than the second
+        out.append({"mode": mode, "container": {"type": "list", "tree": [0, 1]}, "pickup": False,
+                    "parts": [P(0, 5, []), P(1, 2, M(2) + [N(0, 2, 1, 1), N(3, 4, 2, None, 62)])]})
+        out.append({"mode": mode, "container": {"type": "tuple", "tree": [0, 1]}, "pickup": False,
+                    "parts": [P(0, 4, M(4, 1) + [R(0, 6, 1, 1), {"cls": "KeySignature", "s": 0, "e": None, "fifths": -2, "kmode": "minor"},
+                                                 {"cls": "Barline", "s": 16, "e": None}, {"cls": "Clef", "s": 0, "e": None, "staff": 1, "sign": "G"}]),
+                              P(1, 6, M(6, 2) + [N(1, 5, 1, 1, 50), N(25, 31, 1, 1, 52), {"cls": "IncreasingLoudnessDirection", "s": 5, "e": 25, "staff": 1}])]})
         # containers of one part
         for cont in ({"type": "list", "tree": [0]}, {"type": "part", "tree": [0]}, {"type": "group", "tree": [[0]]}, {"type": "score", "tree": [[0]]}):
             out.append({"mode": mode, "container": cont, "pickup": False, "parts": [P(0, 4, M(4) + [N(0, 4, 2, None), R(4, 8, 1, 2)])]})
@@ -835,6 +897,24 @@ def features(case):
             f.add("part_without_notes")
     if case.get("pickup"):
         f.add("pickup")
+    ids = [p["id"] for p in case["parts"]]
+    if len(set(ids)) == 1:
+        f.add("part_ids_all_equal")
+    elif len(set(ids)) < len(ids):
+        f.add("part_ids_some_equal")
+    if any(ids[k] == ids[0] and case["parts"][k]["divs"] != case["parts"][0]["divs"] for k in range(1, len(ids))):
+        f.add("same_id_as_first_with_other_divisions")
+    if not case["parts"][0]["elems"]:
+        f.add("first_part_empty")
+    elif not any(e["cls"] in ("Note", "GraceNote") for e in case["parts"][0]["elems"]):
+        f.add("first_part_without_notes")
+    if case["parts"][0]["divs"] != lcm_list(ds):
+        f.add("first_part_divisions_below_lcm")
+    ends = {max([e["s"] for e in p["elems"]] + [e["e"] for e in p["elems"] if e["e"] is not None]) * Fraction(1, p["divs"]) for p in case["parts"] if p["elems"]}
+    if len(ends) > 1:
+        f.add("parts_of_different_lengths")
+    if len({p.get("note_prefix") for p in case["parts"]}) == 1:
+        f.add("note_ids_collide_across_parts")
     return f
 
 
